@@ -165,7 +165,7 @@ PROPS['C12'] = dict(
         K('poulpy-cpu-ref', 'hal_defaults::scratch::verif_kani', ['c12_take_slice_aligned_contract', 'c12_take_slice_aligned_panics_iff_too_small',
           'c12_take_slice_default_u8', 'c12_take_slice_default_i64', 'c12_take_slice_default_f64', 'c12_take_slice_default_i128'], cls='complete', timeout=600,
           functions=['hal_defaults::scratch::take_slice_aligned', 'HalScratchDefaults::take_slice_default', 'HalScratchDefaults::scratch_available_default', 'HalScratchDefaults::scratch_from_bytes_default']),
-        V('vec_znx_ring'), V('vec_znx_normalize'), V('hal_glue'), V('hal_delegates'), V('vmp_fft64'), V('vmp_ntt120'), V('glwe_ops'), V('core_keyswitch'), V('core_extprod'), V('core_mul'), V('core_lwe_ksk'), V('core_relin'), V('core_trace'), V('core_lwe_to_glwe'), V('core_packing', lemmas=['lemma_merge_both', 'lemma_merge_lo', 'lemma_merge_hi']), V('bdd_blind_rotation_block', lemmas=['lemma_or_ge', 'lemma_div_lt']), V('ckks_mul_const'), V('core_ggsw_expand'), V('bdd_blind_rotation'), V('core_encrypt_pk'), V('core_lwe_encrypt'), V('bdd_cmux'), V('core_decrypt'),
+        V('vec_znx_ring'), V('vec_znx_normalize'), V('hal_glue'), V('hal_delegates'), V('vmp_fft64'), V('vmp_ntt120'), V('glwe_ops'), V('core_keyswitch'), V('core_extprod'), V('core_mul'), V('core_lwe_ksk'), V('core_relin'), V('core_trace'), V('core_lwe_to_glwe'), V('core_packing', lemmas=['lemma_merge_both', 'lemma_merge_lo', 'lemma_merge_hi']), V('bdd_blind_rotation_block', lemmas=['lemma_or_ge', 'lemma_div_lt']), V('ckks_mul_const'), V('hal_scratch_split'), V('core_ggsw_expand'), V('bdd_blind_rotation'), V('core_encrypt_pk'), V('core_lwe_encrypt'), V('bdd_cmux'), V('core_decrypt'),
         K('poulpy-cpu-ref', 'verif_kani::c12_window', [f'c12_window_{op}__n4' for op in ('normalize_assign', 'rotate_assign', 'automorphism_assign', 'mul_xp_minus_one_assign', 'lsh_assign', 'rsh_assign')],
           cls='bounded', timeout=1200, bound='N=4 (limb byte size 32: not a multiple of the 64-byte alignment), size 2',
           functions=['HAL traits VecZnx{Normalize,Rotate,Automorphism,MulXpMinusOne,Lsh,Rsh}Assign with a scratch of exactly the companion *_tmp_bytes; two runs with different scratch contents']),
@@ -264,7 +264,7 @@ PROPS['C20'] = dict(
     technique='Verus lemmas over the work-partition arithmetic sliced from the real multi-threaded functions (chunk_size, start, work-item index, extent of the slice handed to chunks_mut)',
     level_text='Unbounded proof for all item and thread counts >= 1: the number of chunks never exceeds the thread count (the zip drops no chunk), each work item is produced by exactly one (thread, position) pair, every index handed to get_circuit/get_bit_lwe is in range.',
     level_note='Only the partition arithmetic: scheduling, data races and the Sync/Send impls are not decided (Kani has no threads); the slice drops everything but the named statements.',
-    units=[V('partition', lemmas=['lemma_chunks_le_threads', 'lemma_exact_cover', 'c20_execute_chunk_size', 'c20_execute_item', 'c20_execute_chunked_len', 'c20_prepare_item', 'c20_prepare_chunked_len', 'c20_no_item_skipped_or_repeated'])],
+    units=[V('hal_scratch_split'), V('partition', lemmas=['lemma_chunks_le_threads', 'lemma_exact_cover', 'c20_execute_chunk_size', 'c20_execute_item', 'c20_execute_chunked_len', 'c20_prepare_item', 'c20_prepare_chunked_len', 'c20_no_item_skipped_or_repeated'])],
     trusted_base=VERUS_TRUST + ['std::slice::chunks_mut / Iterator::zip / thread::scope semantics; usize::div_ceil assumed specification'],
     assumptions=['threads >= 1 and items >= 1 (threads = 0 divides by zero, items = 0 makes chunks_mut(0) panic in the real code)'],
     remainder='interleavings, bit-identical results across thread counts, Module Sync/Send',
